@@ -109,8 +109,9 @@ POLICIES = ["fifo", "lifo", "prio", "deadline", "fair", "wfq", "alifo", "codel",
 
 
 def _gen_qpol(rng):
-    return {"policy": rng.choice(POLICIES), "rate": rng.choice([120.0, 180.0]), "mean_ms": rng.choice([6.0, 9.0]),
-            "cap": rng.choice([8, 20, 40]), "horizon": rng.choice([2.0, 3.0]), "balk_p": rng.choice([0.3, 0.7, 1.0])}
+    return {"policies": sorted(rng.sample(POLICIES, 3)), "rate": rng.choice([120.0, 180.0]), "mean_ms": rng.choice([6.0, 9.0]),
+            "cap": rng.choice([8, 20, 40]), "horizon": rng.choice([1.5, 2.5]), "balk_p": rng.choice([0.3, 0.7, 1.0]),
+            "util": rng.choice([0.9, 1.1, 1.4])}
 
 
 def _mk_policy(kind: str, p: dict, clock):
@@ -150,36 +151,49 @@ def _mk_policy(kind: str, p: dict, clock):
 
 @model("queue_policies", "queues", _gen_qpol)
 def build_queue_policies(p, seed):
+    """Three single-server stations side by side, each with its own queue policy and Poisson source (one third of the rate)."""
     from happysimulator.components.server.server import Server
     from happysimulator.distributions.exponential import ExponentialLatency
 
-    sink = Sink("sink")
-    holder = {}
-    policy = _mk_policy(p["policy"], p, lambda: holder["server"].now)
-    server = Server("server", concurrency=1, service_time=ExponentialLatency(p["mean_ms"] / 1e3), queue_policy=policy,
-                    downstream=sink)
-    holder["server"] = server
     flows = ["tenant:a", "tenant:b", "tenant:c", "tenant:d"]
 
     def ctx(time, count):
         return {"created_at": time, "request_id": count, "prio": random.randint(0, 4), "flow": random.choice(flows),
                 "deadline": time + random.uniform(0.005, 0.2)}
 
-    prov = SimpleEventProvider(server, "Request", at(p["horizon"] * 0.8), ctx)
-    src = Source.poisson(rate=p["rate"], event_provider=prov, name="src")
-    sim = Simulation(sources=[src], entities=[server, sink], end_time=at(p["horizon"]))
+    stations, srcs = [], []
+    for kind in p["policies"]:
+        sink = Sink(f"sink-{kind}")
+        holder = {}
+        policy = _mk_policy(kind, p, lambda h=holder: h["server"].now)
+        server = Server(f"server-{kind}", concurrency=1, service_time=ExponentialLatency(p["util"] / (p["rate"] / 3)),
+                        queue_policy=policy, downstream=sink)
+        holder["server"] = server
+        prov = SimpleEventProvider(server, "Request", at(p["horizon"] * 0.8), ctx)
+        srcs.append(Source.poisson(rate=p["rate"] / 3, event_provider=prov, name=f"src-{kind}"))
+        stations.append((kind, server, policy, sink))
+    # each station gets a third of the arrivals and a service time that gives utilisation p["util"] (queues must build up)
+    sim = Simulation(sources=srcs, entities=[x for _, sv, _, sk in stations for x in (sv, sk)], end_time=at(p["horizon"]))
 
     def stats(s):
-        s.add("server", server.stats)
-        s.add("queue.accepted", server.stats_accepted)
-        s.add("queue.dropped", server.stats_dropped)
-        if hasattr(policy, "stats"):
-            s.add("policy", policy.stats)
-        inner = getattr(policy, "_inner", None)
-        if inner is not None and hasattr(inner, "stats"):
-            s.add("policy.inner", inner.stats)
-        s.add("sink.received", sink.events_received)
-        s.add("sink.latency", sink.latency_stats())
+        for kind, server, policy, sink in stations:
+            s.add(f"{kind}.server", server.stats)
+            s.add(f"{kind}.accepted", server.stats_accepted)
+            s.add(f"{kind}.dropped", server.stats_dropped)
+            if hasattr(policy, "stats"):
+                s.add(f"{kind}.policy", policy.stats)
+            inner = getattr(policy, "_inner", None)
+            if inner is not None and hasattr(inner, "stats"):
+                s.add(f"{kind}.policy.inner", inner.stats)
+            s.add(f"{kind}.sink.received", sink.events_received)
+            s.add(f"{kind}.sink.latency", sink.latency_stats())
+            st = getattr(inner if kind == "balk_red" else policy, "stats", None)
+            if kind in ("red", "balk_red"):
+                s.probe("red_probabilistic_drop", st.dropped_probabilistic > 0)
+            if kind == "codel":
+                s.probe("codel_drop", server.stats_dropped > 0)
+            if kind in ("balk", "balk_red"):
+                s.probe("balked", server.stats_dropped > 0)
     return sim, stats
 
 
@@ -290,6 +304,8 @@ def build_network_rpc(p, seed):
         s.add("gateway", done)
         s.add("backend.calls", [b.calls for b in backends])
         _link_stats(s, net)
+        s.probe("link_packet_lost", any(l.packets_dropped > 0 for l in net._routes.values()))
+        s.probe("rpc_retry", done["retry"] > 0)
     return sim, stats
 
 
@@ -388,6 +404,10 @@ def build_raft(p, seed):
         s.add("client", {"submitted": cstate["i"], "no_leader": cstate["no_leader"],
                          "resolved": [(f.is_resolved, repr(f.value) if f.is_resolved else None) for f in cstate["futures"]]})
         _link_stats(s, net)
+        s.probe("raft_leader_elected", any(nd.is_leader for nd in nodes))
+        s.probe("raft_command_committed", any(nd.stats.commit_index > 0 for nd in nodes))
+        s.probe("raft_second_election", sum(nd.stats.elections_started for nd in nodes) > 1)
+        s.probe("partition_dropped_messages", net.events_dropped_partition > 0)
     return sim, stats
 
 
@@ -419,6 +439,8 @@ def build_paxos(p, seed):
             s.add(nd.name, nd.stats)
             s.add(f"{nd.name}.decided", (nd.is_decided, nd.decided_value))
         _link_stats(s, net)
+        s.probe("paxos_decided", any(nd.is_decided for nd in nodes))
+        s.probe("paxos_nack_retry", any(nd.stats.nacks_received > 0 for nd in nodes))
     return sim, stats
 
 
@@ -449,6 +471,7 @@ def _log_cluster(cls_name, p, seed, **kw):
         for nd, sm in zip(nodes, sms):
             s.add(nd.name, nd.stats)
             s.add(f"{nd.name}.leader", nd.leader)
+            s.probe("multipaxos_committed", nd.stats.commands_committed > 0)
             s.add(f"{nd.name}.sm", sm.data)
             s.add(f"{nd.name}.log", ";".join(f"{e.index}:{e.term}:{e.command!r}" for e in nd.log.entries_from(1)))
         s.add("client", {"submitted": cstate["i"], "no_leader": cstate["no_leader"],
@@ -502,6 +525,8 @@ def build_leader_election(p, seed):
         for nd in nodes:
             s.add(nd.name, nd.stats)
         _link_stats(s, net)
+        s.probe("election_leader_known", any(nd.current_leader for nd in nodes))
+        s.probe("election_randomized_ballot", p["strategy"] == "randomized" and any(nd.stats.elections_started for nd in nodes))
     return sim, stats
 
 
@@ -534,6 +559,8 @@ def build_swim(p, seed):
             s.add(f"{nd.name}.suspected", nd.suspected_members)
             s.add(f"{nd.name}.dead", nd.dead_members)
         _link_stats(s, net)
+        s.probe("swim_suspected_or_dead", any(nd.stats.suspect_count + nd.stats.dead_count > 0 for nd in nodes))
+        s.probe("swim_indirect_probe", any(nd.stats.indirect_probes_sent > 0 for nd in nodes))
     return sim, stats
 
 
@@ -620,6 +647,9 @@ def build_lsm_wal(p, seed):
     def stats(s):
         s.add("db", db.stats)
         s.add("db.levels", db.level_summary)
+        s.probe("lsm_flush", db.stats.memtable_flushes > 0)
+        s.probe("lsm_compaction", db.stats.compactions > 0)
+        s.probe("lsm_bloom_save", db.stats.bloom_filter_saves > 0)
         if wal is not None:
             s.add("wal", wal.stats)
             s.add("wal.synced_up_to", wal.synced_up_to)
@@ -649,6 +679,7 @@ def build_btree(p, seed):
 
     def stats(s):
         s.add("btree", bt.stats)
+        s.probe("btree_split", bt.stats.node_splits > 0)
         s.add("btree.depth", bt.depth)
         s.add("btree.size", bt.size)
         _client_stats(s, clients)
@@ -716,6 +747,9 @@ def build_cached_store(p, seed):
 
     def stats(s):
         s.add("cache", cache.stats)
+        s.probe("cache_eviction", cache.stats.evictions > 0)
+        s.probe("cache_eviction_random_policy", p["policy"] in ("random", "sampled_lru") and cache.stats.evictions > 0)
+        s.probe("cache_writeback_flush", getattr(fl, "flushed", 0) > 0)
         s.add("cache.hit_rate", cache.hit_rate)
         s.add("cache.cached_keys", cache.get_cached_keys())
         s.add("cache.dirty", sorted(cache.get_dirty_keys()))
@@ -748,6 +782,8 @@ def build_soft_ttl(p, seed):
 
     def stats(s):
         s.add("cache", cache.stats)
+        s.probe("softttl_stale_hit_refresh", cache.stats.background_refreshes > 0)
+        s.probe("softttl_coalesced", cache.stats.coalesced_requests > 0)
         s.add("cache.cached_keys", cache.get_cached_keys())
         s.add("backing", backing.stats)
         _client_stats(s, clients)
@@ -781,6 +817,8 @@ def build_multi_tier(p, seed):
     def stats(s):
         s.add("cache", cache.stats)
         s.add("tiers", cache.get_tier_stats())
+        s.probe("multitier_promotion", cache.stats.promotions > 0)
+        s.probe("multitier_l1_eviction", l1.stats.evictions > 0)
         s.add("L1.keys", l1.get_cached_keys())
         s.add("L2.keys", l2.get_cached_keys())
         s.add("backing", backing.stats)
@@ -851,6 +889,7 @@ def build_replicated(p, seed):
     def stats(s):
         s.add("store", store.stats)
         s.add("replica_status", store.get_replica_status())
+        s.probe("replicated_quorum_write", store.stats.write_successes > 0)
         for r in reps:
             s.add(r.name, r.stats)
         _client_stats(s, clients)
@@ -937,6 +976,8 @@ def build_primary_backup(p, seed):
     def stats(s):
         s.add("primary", primary.stats)
         s.add("primary.lag", primary.backup_lag)
+        s.probe("pb_replicated", any(b.stats.replications_applied > 0 for b in backups))
+        s.probe("link_packet_lost", any(l.packets_dropped > 0 for l in net._routes.values()))
         for b, st in zip(backups, bss):
             s.add(b.name, b.stats)
             s.add(f"{b.name}.seq", b.last_applied_seq)
@@ -1006,6 +1047,8 @@ def build_multi_leader(p, seed):
         for ld in leaders:
             s.add(ld.name, ld.stats)
             s.add(f"{ld.name}.merkle", ld.merkle_tree.root_hash)
+            s.probe("multileader_conflict", ld.stats.conflicts_detected > 0)
+            s.probe("multileader_anti_entropy_random_peer", ld.stats.anti_entropy_syncs > 0)
             s.add(f"{ld.name}.versions", sorted((k, str(v.value), v.writer_id, sorted((v.vector_clock or {}).items()))
                                                 for k, v in ld.versions.items()))
         _rw_stats(s, clients)
@@ -1062,6 +1105,8 @@ def build_crdt_store(p, seed):
         for st in stores:
             s.add(st.name, st.stats)
             s.add(f"{st.name}.lag", st.convergence_lag)
+            s.probe("crdt_gossip_random_peer", st.stats.gossip_sent > 0)
+            s.probe("crdt_keys_merged", st.stats.keys_merged > 0)
             s.add(f"{st.name}.values", sorted((k, _plain(c.value)) for k, c in st.crdts.items()))
             s.add(f"{st.name}.state", sorted((k, repr(_plain(c.to_dict()))) for k, c in st.crdts.items()))
         _link_stats(s, net)
@@ -1139,6 +1184,9 @@ def build_message_queue(p, seed):
 
     def stats(s):
         s.add("queue", q.stats)
+        s.probe("mq_redelivered", q.stats.messages_redelivered > 0)
+        s.probe("mq_dead_lettered", q.stats.messages_dead_lettered > 0)
+        s.probe("mq_refused_at_capacity", refused["n"] > 0)
         s.add("queue.pending", q.pending_count)
         s.add("queue.in_flight", q.in_flight_count)
         if dlq is not None:
@@ -1194,6 +1242,8 @@ def build_topic(p, seed):
 
     def stats(s):
         s.add("topic", topic.stats)
+        s.probe("topic_unsubscribe", topic.stats.subscribers_removed > 0)
+        s.probe("topic_replay", any(r for v in got.values() for _, r in v))
         s.add("topic.subscribers", [x.name for x in topic.subscribers])
         for sb in subs:
             s.add(f"{sb.name}.got", got.get(sb.name, []))
@@ -1277,6 +1327,9 @@ def build_event_log_group(p, seed):
         s.add("log.hw", log.high_watermarks())
         s.add("log.total", log.total_records)
         s.add("group", group.stats)
+        s.probe("group_rebalanced_more_than_once", group.stats.rebalances > 1)
+        s.probe("group_leave", group.stats.leaves > 0)
+        s.probe("log_records_expired", log.stats.records_expired > 0)
         s.add("group.assignments", group.assignments)
         s.add("group.generation", group.generation)
         s.add("group.lag", group.total_lag())
@@ -1331,6 +1384,8 @@ def build_rate_limiters(p, seed):
     def stats(s):
         for f in fronts:
             s.add(f.name, f.stats)
+            s.probe("limiter_queued_or_dropped", getattr(f.stats, "queued", 0) + getattr(f.stats, "dropped", 0) > 0
+                    or sink.events_received < sum(x.generated_count for x in srcs))
         s.add("sink.received", sink.events_received)
         s.add("sink.latency", sink.latency_stats())
     return sim, stats
@@ -1345,56 +1400,65 @@ LB = ["round_robin", "weighted_rr", "random", "least_conn", "weighted_least_conn
 
 
 def _gen_lb(rng):
-    return {"strategy": rng.choice(LB), "backends": rng.choice([3, 4, 6]), "rate": rng.choice([80.0, 150.0]), "horizon": 2.0,
+    return {"strategies": sorted(rng.sample(LB, 3)), "backends": rng.choice([3, 4]), "rate": rng.choice([90.0, 150.0]), "horizon": 2.0,
             "vnodes": rng.choice([5, 50]), "flap": rng.random() < 0.5, "clients": rng.choice([7, 40])}
 
 
 @model("load_balancer", "load-balancer", _gen_lb)
 def build_load_balancer(p, seed):
+    """Three load balancers side by side, each with its own strategy, backends and Poisson source (one third of the rate)."""
     from happysimulator.components.load_balancer import strategies as S
     from happysimulator.components.load_balancer.load_balancer import LoadBalancer
     from happysimulator.components.server.server import Server
     from happysimulator.distributions.exponential import ExponentialLatency
 
-    sink = Sink("sink")
-    servers = [Server(f"backend-{i}", concurrency=2, service_time=ExponentialLatency(0.01 * (1 + i % 3)), downstream=sink,
-                      queue_capacity=30) for i in range(p["backends"])]
-    st = {"round_robin": S.RoundRobin, "weighted_rr": S.WeightedRoundRobin, "random": S.Random, "least_conn": S.LeastConnections,
-          "weighted_least_conn": S.WeightedLeastConnections, "least_response_time": S.LeastResponseTime, "ip_hash": S.IPHash,
-          "consistent_hash": lambda: S.ConsistentHash(virtual_nodes=p["vnodes"]), "p2c": S.PowerOfTwoChoices}[p["strategy"]]()
-    if hasattr(st, "set_weight"):
-        for i, sv in enumerate(servers):
-            st.set_weight(sv, 1 + i % 3)
-    lb = LoadBalancer("lb", backends=servers, strategy=st)
     clients = words(p["clients"], "client")
 
     def ctx(time, count):
         return {"created_at": time, "request_id": count, "metadata": {"client_id": zipf_pick(clients, 0.5)}}
 
-    src = Source.poisson(rate=p["rate"], event_provider=SimpleEventProvider(lb, "Request", at(p["horizon"] * 0.8), ctx), name="src")
+    groups, srcs, ents = [], [], []
+    for kind in p["strategies"]:
+        sink = Sink(f"sink-{kind}")
+        servers = [Server(f"{kind}-backend-{i}", concurrency=2, service_time=ExponentialLatency(0.01 * (1 + i % 3)), downstream=sink,
+                          queue_capacity=30) for i in range(p["backends"])]
+        st = {"round_robin": S.RoundRobin, "weighted_rr": S.WeightedRoundRobin, "random": S.Random, "least_conn": S.LeastConnections,
+              "weighted_least_conn": S.WeightedLeastConnections, "least_response_time": S.LeastResponseTime, "ip_hash": S.IPHash,
+              "consistent_hash": lambda: S.ConsistentHash(virtual_nodes=p["vnodes"]), "p2c": S.PowerOfTwoChoices}[kind]()
+        if hasattr(st, "set_weight"):
+            for i, sv in enumerate(servers):
+                st.set_weight(sv, 1 + i % 3)
+        lb = LoadBalancer(f"lb-{kind}", backends=servers, strategy=st)
+        srcs.append(Source.poisson(rate=p["rate"] / 3, event_provider=SimpleEventProvider(lb, "Request", at(p["horizon"] * 0.8), ctx),
+                                   name=f"src-{kind}"))
+        groups.append((kind, lb, servers, sink))
+        ents += [lb, *servers, sink]
 
     def flap(self, ev):
+        _, lb, servers, _ = random.choice(groups)
         sv = random.choice(servers)
         if sv in lb.healthy_backends and lb.healthy_count > 1:
             lb.mark_unhealthy(sv)
         else:
             lb.mark_healthy(sv)
-        return [Event(time=self.now + random.uniform(0.1, 0.3), event_type="Flap", target=self, daemon=True)]
+        return [Event(time=self.now + random.uniform(0.05, 0.15), event_type="Flap", target=self, daemon=True)]
 
     fl = Proc("health", flap)
-    sim = Simulation(sources=[src], entities=[lb, *servers, sink, fl], end_time=at(p["horizon"]))
+    sim = Simulation(sources=srcs, entities=[*ents, fl], end_time=at(p["horizon"]))
     if p["flap"]:
         sim.schedule(Event(time=at(0.2), event_type="Flap", target=fl, daemon=True))
 
     def stats(s):
-        s.add("lb", lb.stats)
-        s.add("lb.healthy", [b.name for b in lb.healthy_backends])
-        for sv in servers:
-            s.add(sv.name, sv.stats)
-            info = lb.get_backend_info(sv)
-            s.add(f"{sv.name}.total_requests", info.total_requests if info else None)
-        s.add("sink.received", sink.events_received)
-        s.add("sink.latency", sink.latency_stats())
+        for kind, lb, servers, sink in groups:
+            s.add(f"{kind}.lb", lb.stats)
+            s.probe("lb_backend_marked_unhealthy", lb.stats.backends_marked_unhealthy > 0)
+            s.add(f"{kind}.healthy", [b.name for b in lb.healthy_backends])
+            for sv in servers:
+                s.add(sv.name, sv.stats)
+                info = lb.get_backend_info(sv)
+                s.add(f"{sv.name}.total_requests", info.total_requests if info else None)
+            s.add(f"{kind}.sink.received", sink.events_received)
+            s.add(f"{kind}.sink.latency", sink.latency_stats())
     return sim, stats
 
 
@@ -1534,6 +1598,10 @@ def build_industrial(p, seed):
     def stats(s):
         s.add("machine", machine.stats)
         s.add("machine.dropped", machine.stats_dropped)
+        s.probe("industrial_breakdown", breaker.stats.breakdown_count > 0)
+        s.probe("industrial_inspection_failed", inspect.stats.failed > 0)
+        s.probe("industrial_no_show", appts.stats.no_shows > 0)
+        s.probe("balked", machine.stats_dropped > 0)
         s.add("breaker", breaker.stats)
         s.add("belt", belt.stats)
         s.add("inspection", inspect.stats)
@@ -1585,6 +1653,8 @@ def build_behaviour(p, seed):
     def stats(s):
         s.add("env", env.stats)
         s.add("pop", pop.stats)
+        s.probe("behaviour_decisions", pop.stats.total_decisions > 0)
+        s.probe("behaviour_influence_rounds", env.stats.influence_rounds > 0)
         s.add("graph.edges", pop.social_graph.edge_count)
         s.add("graph.nodes", pop.social_graph.nodes)
         for a in pop.agents:
@@ -1665,6 +1735,8 @@ def build_client_retry(p, seed):
 
     def stats(s):
         s.add("client", client.stats)
+        s.probe("client_retry_with_jitter", client.stats.retries > 0 and p["retry"] in ("expo_jitter", "decorrelated"))
+        s.probe("client_timeout", client.stats.timeouts > 0)
         s.add("client.avg_rt", client.average_response_time)
         s.add("outcomes", outcomes)
         s.add("server", server.stats)
@@ -1771,6 +1843,7 @@ def build_ttl_cache_server(p, seed):
 
     def stats(s):
         s.add("server", {"hits": server.hits, "misses": server.misses, "processed": server.processed})
+        s.probe("ttl_server_expired_entry_miss", server.misses > p["customers"])
         s.add("cache", server.cache.stats)
         s.add("cache.keys", server.cache.get_cached_keys())
     return sim, stats
@@ -1823,6 +1896,7 @@ def build_write_policy(p, seed):
         s.add("backing.keys", backing.keys())
         s.add("flushed", flushed)
         s.add("dirty", getattr(pol, "dirty_count", 0))
+        s.probe("writeback_policy_flush", len(flushed) > 0)
     return sim, stats
 
 
@@ -1833,7 +1907,7 @@ def build_write_policy(p, seed):
 
 VARIANT = {
     "mm1": lambda p: f"{p['arrival']}-{p['service']}",
-    "queue_policies": lambda p: p["policy"],
+    "queue_policies": lambda p: "+".join(p["policies"]),
     "network_rpc": lambda p: "+".join(sorted(set(p["links"]))),
     "raft": lambda p: "mixed" if p["mixed"] else p["link"],
     "paxos": lambda p: "mixed" if p["mixed"] else p["link"],
@@ -1856,7 +1930,7 @@ VARIANT = {
     "topic": lambda p: "churn" if p["churn"] else "static",
     "event_log_group": lambda p: f"{p['assign']}-{p['sharding']}",
     "rate_limiters": lambda p: p["kind"],
-    "load_balancer": lambda p: p["strategy"],
+    "load_balancer": lambda p: "+".join(p["strategies"]),
     "sketch_cms": lambda p: "weighted" if p["weights"] else "unit",
     "sketch_others": lambda p: "all",
     "industrial_line": lambda p: "line",
